@@ -49,8 +49,10 @@ def s_frag(vc):
         for c in chunks:
             vc.assume(Implies(len_(c) > 0, Not(is_continuation(vc, c, 0))))
     content = vc.sym_bytes("content") if (modified or nfrag == 0) else original
-    vc.assume(len_(content) <= 4 * FRAGMENT_SIZE)          # unrolling bound of the re-fragmentation loop (stated in ASSUMPTIONS)
-    fr = vc.new(FR, fragment_lengths=vc.list([len_(c) for c in chunks]), is_text=is_text)
+    # FRAGMENT_SIZE is a class attribute addons may patch: any positive size (instance attribute shadows the class constant)
+    FS = vc.sym_int("fragment_size", lo=1)
+    vc.assume(len_(content) <= 4 * FS)          # unrolling bound of the re-fragmentation loop (stated in ASSUMPTIONS)
+    fr = vc.new(FR, fragment_lengths=vc.list([len_(c) for c in chunks]), is_text=is_text, FRAGMENT_SIZE=FS)
     out = vc.call(FR + ".__call__", fr, content)
     vc.ensure("no_exception", out.ok)
     if not out.ok:
@@ -65,7 +67,7 @@ def s_frag(vc):
     if same_len:
         lens = [len_(c) for c in chunks[:-1]]
     else:
-        lens = [FRAGMENT_SIZE] * (len(msgs) - 1)
+        lens = [FS] * (len(msgs) - 1)
     vc.ensure("fragment_count", len(msgs) == len(lens) + 1)
     if len(msgs) != len(lens) + 1:
         return
@@ -80,9 +82,9 @@ def s_frag(vc):
         vc.ensure("finished_only_on_last", vc.eq(fin, k == len(msgs) - 1))
         vc.ensure("payload_is_the_kth_slice", vc.eq(payload, decode_replace(vc, chunk) if is_text else chunk))
         if not same_len:
-            vc.ensure("chunk_at_most_fragment_size", len_(chunk) <= FRAGMENT_SIZE)
+            vc.ensure("chunk_at_most_fragment_size", len_(chunk) <= FS)
             if k < len(msgs) - 1:
-                vc.ensure("inner_chunk_is_fragment_size", len_(chunk) == FRAGMENT_SIZE)
+                vc.ensure("inner_chunk_is_fragment_size", len_(chunk) == FS)
             else:
                 vc.ensure("last_chunk_nonempty_unless_empty_message", Or(len_(chunk) > 0, L == 0))
     # slices tile the content (concat == content): offsets increasing and within bounds
@@ -98,3 +100,197 @@ def s_frag(vc):
             else:
                 # KF-C28-1: cuts are byte offsets; a modified / injected text whose character straddles a cut is corrupted
                 vc.ensure_kf("text.cut_on_character_boundary", on_boundary, "KF-C28-1", And(inside, is_continuation(vc, content, o)))
+
+
+# ---------------------------------------------------------------------------------------------
+# WebsocketLayer.relay_messages relative to the wsproto event contract
+
+from props.httpstream import mk_request, mk_response, mk_flow
+
+WL = WSL + ":WebsocketLayer"
+WC = WSL + ":WebsocketConnection"
+
+ASSUMPTIONS = [
+    "wsproto is trusted: Connection.receive_data/events() deliver the peer's frames as Message(data, frame_finished, message_finished) / Ping / Pong / CloseConnection events (text payloads as str, split only between characters); Connection.send(event) serialises exactly that event (permessage-deflate included); T2 runs real wsproto peers",
+    "Fragmentizer: FRAGMENT_SIZE is any positive integer (instance attribute shadowing the class constant 4000); message length <= 4 x FRAGMENT_SIZE (unrolling bound of the re-fragmentation loop); <= 3 original fragments",
+    "relay_messages (T1): one message of <= 2 frames per call; text payloads ASCII (multi-byte text: Fragmentizer's byte-level obligations and T2)",
+]
+
+
+def mk_ws_layer(vc, client_state=None, server_state=None, client_buf=None, server_buf=None):
+    from wsproto import ConnectionState as WS
+    client, server = mk_client(vc), mk_server(vc, timestamp_start=2.0)
+    ctx = mk_context(vc, client, server)
+    wsdata = vc.new("mitmproxy.websocket:WebSocketData", messages=vc.list([]), closed_by_client=None, close_code=None, close_reason=None, timestamp_end=None)
+    flow = mk_flow(vc, client, server, mk_request(vc), mk_response(vc), websocket=wsdata)
+    cws = vc.new(WC, conn=client, frame_buf=vc.list(client_buf if client_buf is not None else [b""]), _events=vc.deque([]), _state=client_state or WS.OPEN, client=False, _proto=None)
+    sws = vc.new(WC, conn=server, frame_buf=vc.list(server_buf if server_buf is not None else [b""]), _events=vc.deque([]), _state=server_state or WS.OPEN, client=True, _proto=None)
+    lay = vc.new(WL, context=ctx, flow=flow, client_ws=cws, server_ws=sws, debug=None, _paused=None, _paused_event_queue=None)
+    return lay, flow, client, server, cws, sws
+
+
+def install_wsproto(vc, script):
+    """script: {id(ws): [events]} delivered by events() after receive_data; returns (received, sent) logs"""
+    received, sent = [], []
+
+    def pending(ws):
+        d = ws.fields["_events"] if vc.mode == "sym" else ws._events
+        if vc.mode == "sym":
+            items = list(d.fields["_items"].items)
+            d.fields["_items"].items.clear()
+        else:
+            items = list(d)
+            d.clear()
+        return items
+
+    def receive_data(v, ws, data):
+        received.append((ws, data))
+        return NONE if v.mode == "sym" else None
+
+    def events(v, ws):
+        evs = pending(ws) + [e for w, es in script for e in es if w is ws and any(r[0] is ws for r in received)]
+        return v.gen(evs)
+
+    def send(v, ws, event):
+        sent.append((ws, event))
+        return v.lift(b"<wire:%d>" % (len(sent) - 1))
+
+    vc.summary("wsproto.connection:Connection.receive_data", receive_data)
+    vc.summary("wsproto.connection:Connection.events", events)
+    vc.summary("wsproto.connection:Connection.send", send)
+    return received, sent
+
+
+def items_of(vc, l):
+    return list(l.items) if isinstance(l, (SList, STuple)) else list(l)
+
+
+def ascii_str(vc, name):
+    s = vc.sym_str(name)
+    if vc.mode == "sym":
+        import z3
+        vc.assume(SBool(z3.InRe(s.t, z3.Star(z3.Range(chr(0), chr(127))))))
+        return s, SBytes(s.t)
+    vc.assume(all(ord(c) < 128 for c in s))
+    return s, s.encode()
+
+
+@scenario("relay.message", functions=[WL + ".relay_messages", WC + ".send2", FR + ".__call__", FR + ".msg"], extra_inline_roots=WSPROTO, max_unroll=5)
+def s_relay_msg(vc):
+    from wsproto.frame_protocol import Opcode
+    from_client = vc.case("from_client", [True, False])
+    is_text = vc.case("type", ["binary", "text"]) == "text"
+    nframes = vc.case("frames", [1, 2])
+    partial = vc.case("first_frame_in_two_pieces", [False, True])
+    policy = vc.case("addon", ["keep", "same_length_edit", "edit", "drop"])
+    lay, flow, client, server, cws, sws = mk_ws_layer(vc)
+    src, dst = (cws, sws) if from_client else (sws, cws)
+    EV = "wsproto.events:" + ("TextMessage" if is_text else "BytesMessage")
+    pieces = []          # (payload as delivered, payload as bytes, frame_finished, message_finished)
+    n_ev = nframes + (1 if partial else 0)
+    for i in range(n_ev):
+        if is_text:
+            s, bts = ascii_str(vc, f"piece{i}")
+        else:
+            bts = vc.sym_bytes(f"piece{i}")
+            s = bts
+        frame_fin = not (partial and i == 0)
+        pieces.append((s, bts, frame_fin, i == n_ev - 1))
+    evs = [vc.new(EV, data=p[0], frame_finished=p[2], message_finished=p[3]) for p in pieces]
+    received, sent = install_wsproto(vc, [(src, evs)])
+    wire_in = vc.sym_bytes("wire_in")
+    content = b""
+    for p in pieces:
+        content = content + p[1]
+    # original frame payloads (a frame delivered in two pieces is one frame)
+    frames = []
+    cur = b""
+    for p in pieces:
+        cur = cur + p[1]
+        if p[2]:
+            frames.append(cur)
+            cur = b""
+    edited = vc.sym_bytes("edited")
+    if policy == "same_length_edit":
+        vc.assume(len_(edited) == len_(content))
+    if policy == "edit":
+        vc.assume(len_(edited) != len_(content))
+    FS = vc.sym_int("fragment_size", lo=1)
+    vc.assume(len_(edited) <= 3 * FS)
+    hooks = []
+
+    def on_yield(cmd):
+        if is_cmd(cmd, "WebsocketMessageHook"):
+            hooks.append(cmd)
+            m = items_of(vc, cmd.flow.websocket.messages)[-1]
+            if policy in ("same_length_edit", "edit"):
+                m.content = edited
+            elif policy == "drop":
+                m.dropped = True
+
+    set_fragment_size(vc, FS)
+    ev = vc.new("mitmproxy.proxy.events:DataReceived", connection=client if from_client else server, data=wire_in)
+    out = vc.call(WL + ".relay_messages", lay, ev, on_yield=on_yield)
+    vc.ensure("no_exception", out.ok)
+    if not out.ok:
+        return
+    tr = out.trace
+    vc.ensure("input_handed_to_the_senders_parser_only", And(len(received) == 1, received[0][0] is src if received else False, vc.eq(received[0][1], wire_in) if received else False))
+    msgs = items_of(vc, flow.websocket.messages)
+    vc.ensure("recorded_once", len(msgs) == 1)
+    vc.ensure("one_message_hook", len(hooks) == 1 and trace_kinds(tr)[:1] == ["WebsocketMessageHook"] and trace_kinds(tr).count("WebsocketMessageHook") == 1)
+    if len(msgs) != 1:
+        return
+    m = msgs[0]
+    vc.ensure("recorded.direction_and_type", And(vc.eq(m.from_client, from_client), vc.eq(m.type, Opcode.TEXT if is_text else Opcode.BINARY), vc.eq(m.injected, False)))
+    final = content if policy in ("keep", "drop") else edited
+    vc.ensure("recorded.content_is_the_reassembled_payload_then_addon_edit", vc.eq(m.content, final))
+    vc.ensure("frame_buffer_reset", And(len(items_of(vc, src.frame_buf)) == 1, vc.eq(items_of(vc, src.frame_buf)[0], b"")))
+    sends = [c for c in tr if is_cmd(c, "SendData")]
+    vc.ensure("only_hook_and_sends", len(tr) == 1 + len(sends))
+    if policy == "drop":
+        vc.ensure("dropped.nothing_sent", len(sent) == 0 and len(sends) == 0)
+        return
+    vc.ensure("sent_to_the_other_peer_only", all(w is dst for w, _ in sent) and all(c.connection is dst.conn for c in sends))
+    vc.ensure("each_serialised_fragment_sent_once_in_order", And(len(sends) == len(sent), *[vc.eq(c.data, b"<wire:%d>" % i) for i, c in enumerate(sends)]))
+    vc.ensure("at_least_one_fragment", len(sent) >= 1)
+    if not sent:
+        return
+    payloads = [ev_fields(vc, e) for _, e in sent]
+    vc.ensure("same_type", all(k == ("TextMessage" if is_text else "BytesMessage") for k, _, _ in payloads))
+    vc.ensure("finished_only_on_last", And(*[vc.eq(f, i == len(payloads) - 1) for i, (_, _, f) in enumerate(payloads)]))
+    joined = b"" if not is_text else ""
+    for _, p, _ in payloads:
+        joined = joined + p
+    final_payload = final if not is_text else decode_replace(vc, final)
+    if policy in ("keep", "same_length_edit"):
+        # original frame boundaries
+        vc.ensure("unmodified_length.original_frame_count", len(payloads) == len(frames))
+        if len(payloads) == len(frames) and policy == "keep":
+            for i, fr_ in enumerate(frames):
+                want = fr_ if not is_text else (SStr(fr_.t) if vc.mode == "sym" and is_sym(fr_) else (fr_.decode() if isinstance(fr_, bytes) else fr_))
+                vc.ensure("unmodified.original_frame_payloads", vc.eq(payloads[i][1], want))
+    if not is_text:
+        vc.ensure("binary.concatenated_fragments_equal_recorded_content", vc.eq(joined, final))
+
+
+def set_fragment_size(vc, fs):
+    """Fragmentizer.FRAGMENT_SIZE (class attribute, documented as patchable) is any positive value: the constructor call is
+    replaced by its contract (scenario fragmentizer.init: fragment_lengths = lengths of the buffered frames, is_text kept)
+    plus an instance attribute FRAGMENT_SIZE"""
+
+    def ctor(v, fragments, is_text):
+        frs = items_of(v, fragments)
+        return v.new(FR, fragment_lengths=v.list([len_(x) for x in frs]), is_text=is_text, FRAGMENT_SIZE=fs)
+
+    vc.summary(FR, ctor)
+
+
+@scenario("fragmentizer.init", functions=[FR + ".__init__"])
+def s_frag_init(vc):
+    chunks = [vc.sym_bytes(f"frag{i}") for i in range(vc.case("n", [0, 1, 3]))]
+    is_text = vc.sym_bool("is_text")
+    fr = vc.construct(FR, vc.list(chunks), is_text)
+    fl = items_of(vc, fr.fragment_lengths)
+    vc.ensure("lengths_of_the_buffered_frames", len(fl) == len(chunks) and (And(*[vc.eq(a, len_(c)) for a, c in zip(fl, chunks)]) if chunks else True))
+    vc.ensure("type_kept", vc.eq(fr.is_text, is_text))
